@@ -200,6 +200,7 @@ func VerifC01Race() {
 type vYieldTSO struct{ tso.TSO }
 
 func (t *vYieldTSO) Deal() (uint64, error) {
-	zzverif.Yield()
+	zzverif.YieldAt("deal")
+	defer zzverif.YieldAt("deal-done")
 	return t.TSO.Deal()
 }
